@@ -6,3 +6,4 @@ Definition render_trigger (c : cfg) (p : policy) (t : triggers) (ops : list op) 
   if can_merge p t (fst (fst (run c init ops))) then "true" else "false".
 Definition render_triggers (cases : list (cfg * policy * triggers * list op)) : string :=
   join nl (List.map (fun '(c, p, t, ops) => render_trigger c p t ops) cases).
+
